@@ -221,6 +221,24 @@ class Symb(object):
                 return -self.lin(n['ch'][0])
             if n.get('op') == '+':
                 return self.lin(n['ch'][0])
+        if k in ('CallExpr', 'CXXMemberCallExpr') and not n.get('virt') and getattr(self, '_hdepth', 0) < 3:
+            # expression helper of the same unit: `T f(params) { return E; }` with unmodified parameters stands for E over the arguments
+            hc = fn._helper_ctx(i) if hasattr(fn, '_helper_ctx') else None
+            if hc is not None:
+                g, amap = hc
+                rets = g.returns()
+                body = g.N(g.body)['ch'] if g.body is not None and g.body >= 0 else []
+                if len(rets) == 1 and len(body) == 1 and body[0] == rets[0] and g.ret_value(rets[0]) is not None and len(amap) == len(g.params):
+                    try:
+                        j = fn._import(g, g.ret_value(rets[0]), amap, i, strict=True)
+                    except ValueError:
+                        j = None
+                    if j is not None:
+                        self._hdepth = getattr(self, '_hdepth', 0) + 1
+                        try:
+                            return self.lin(j)
+                        finally:
+                            self._hdepth -= 1
         a = self.atom_of(i)
         if a is not None:
             if a in self.env:
